@@ -50,3 +50,18 @@ Theorem C08_source_sgr_one : forall p op, g_sgr_one p op = sgr_one p op.
 Proof. exact tie_sgr_one. Qed.
 Check C08_source_sgr_one : forall p op, g_sgr_one p op = sgr_one p op.
 Print Assumptions C08_source_sgr_one.
+
+From Avt Require Import Gen.AccFns Proofs.AccTie.
+(** SOURCE TIE BY PROOF (translate/acc2coq.py -> Gen/AccFns.v): the public constructors and accessors are REGENERATED from the Rust source on every run and proved equal to the model's observation functions - the functions through which every theorem of this property reads the terminal *)
+(** Cell::pen - the public accessor through which a printed cell reports its pen *)
+Theorem C08_source_cell_pen : forall c, g_cell_pen c = Ok (cpen c).
+Proof. exact tie_cell_pen. Qed.
+Check C08_source_cell_pen : forall c, g_cell_pen c = Ok (cpen c).
+Print Assumptions C08_source_cell_pen.
+
+(** Cell::char *)
+Theorem C08_source_cell_char : forall c, g_cell_char c = Ok (ch c).
+Proof. exact tie_cell_char. Qed.
+Check C08_source_cell_char : forall c, g_cell_char c = Ok (ch c).
+Print Assumptions C08_source_cell_char.
+
